@@ -147,7 +147,7 @@ def c16_oracle(full, io, b):
                 if ip.version == 6 and ip.compressed != body:
                     out.append(fail(v, h, "raw_host", f"IPv6 host {body!r} is not in compressed form {ip.compressed!r}", "ipv6-not-compressed"))
             except ValueError:
-                pass
+                continue          # not a valid IPv6 literal: outside this clause of the property
             for nm, val in (("host_subcomponent", hs), ("host_port_subcomponent", hps)):
                 if val and not val.startswith("!") and val != "~" and not dec(val).startswith("[" + raw + "]"):
                     out.append(fail(v, h, nm, f"{nm} = {dec(val)!r} does not bracket the IPv6 host {raw!r}", "ipv6-brackets"))
@@ -286,7 +286,9 @@ def c17_oracle(full, io, b):
         if not v.alive(h):
             continue
         ep, pt, idp, hps, s = (v.get(h, x) for x in ("explicit_port", "port", "is_default_port", "host_port_subcomponent", "str"))
-        if None in (ep, pt, idp, hps, s) or any(x.startswith("!") for x in (ep, pt, idp, hps, s)):
+        if None in (ep, pt, idp, hps, s):
+            continue
+        if any(x.startswith("!") for x in (ep, pt, idp, hps, s)):
             out.append(fail(v, h, "str", f"a URL with a valid port cannot be observed: {[ep, pt, idp, hps, s]}", "port-observe"))
             continue
         dflt = DEFAULTS.get(scheme)
@@ -450,7 +452,13 @@ def c19_oracle(full, io, b):
         if f[0] in ("bld", "mod", "jn") and v.alive(h) and h not in taint:
             s = v.get(h, "str")
             if s is not None and s.startswith("!"):
-                out.append(fail(v, h, "str", f"str() of an object returned by {f[0] if f[0]!='mod' else f[3]} raised {s}", "str-not-total"))
+                val = v.get(h, "val")
+                netloc = val[3:].split(",")[1] if val and val.startswith("L5:") else ""
+                hostinfo = dec(netloc).rpartition("@")[2] if netloc else ""
+                cls = "str-not-total"
+                if ("[" in hostinfo or "]" in hostinfo) and not re.match(r"^\[[^\[\]]*\](:[^\[\]]*)?$", hostinfo):
+                    cls = "malformed-brackets"
+                out.append(fail(v, h, "str", f"str() of an object returned by {f[0] if f[0]!='mod' else f[3]} raised {s}", cls))
     return out
 
 
